@@ -15,6 +15,7 @@ type AtomInfo struct {
 
 // Path is the state of one explored path.
 type Path struct {
+	readSeq int // transport reads met so far (FailReads)
 	E *Engine
 
 	decisions []bool
